@@ -74,8 +74,92 @@ pub(crate) fn check_elision(orig: &Envelope, res: &Envelope, t: &HashSet<Digest>
 }
 
 /// C03 - elision hides exactly the targets and leaves no trace
+/// elision far below the root: no depth at which the walk stops looking (C02: digests preserved; C03: hides exactly the targets)
+pub fn deep_elision(c: &mut Ctx, b: &Budget, prop: &str) {
+    for (k, d) in deep_depths(b.thorough).into_iter().enumerate() {
+        c.begin("deep");
+        let dp = gen_deep(c, d, k % 2 == 1);
+        let orig = match c.env(&dp.top) { Some(e) => e, None => { c.end(); continue; } };
+        let bottom_d = c.env(&dp.bottom).unwrap().digest().into_owned();
+        let mut reveal: Vec<String> = dp.chain.clone(); reveal.push(dp.second.clone());
+        let reveal_set: HashSet<Digest> = reveal.iter().filter_map(|r| c.env(r)).map(|e| e.digest().into_owned()).collect();
+        for act in ["elide".to_string(), "compress".to_string(), format!("encrypt:{}", KEY1)] {
+            let a0 = act.split(':').next().unwrap().to_string();
+            for (mode, ts, tset, revealing) in [("rem", dp.bottom.clone(), [bottom_d.clone()].into_iter().collect::<HashSet<Digest>>(), false), ("rev", reveal.join(","), reveal_set.clone(), true)] {
+                let r = c.assign(&format!("elide_set {} {} {} {}", dp.top, mode, act, ts));
+                c.no_panic(&r, "obscuring");
+                if let Some(res) = c.env(&r) {
+                    c.obs(&format!("digest {}", r));
+                    if prop == "C02" {
+                        let v = crate::props::check_positions(&orig, &res);
+                        c.check("digests-preserved", v.is_ok(), "digests-preserved", || format!("depth {}: {}", d, v.unwrap_err()));
+                    } else {
+                        let v = check_elision(&orig, &res, &tset, revealing, &a0);
+                        c.check("hides-exactly-targets", v.is_ok(), "hides-exactly-targets", || format!("depth {} mode {} action {}: {}", d, mode, a0, v.unwrap_err()));
+                        // the bottom leaf must be gone from the bytes when it was elided
+                        if a0 == "elide" { let bytes = res.tagged_cbor().to_cbor_data(); let gone = !bytes.windows(6).any(|w| w == b"bottom"); c.check("no-residue", gone, "marker-residue", || format!("depth {} mode {}: the hidden leaf is still in the encoding", d, mode)); }
+                    }
+                }
+            }
+        }
+        c.end();
+    }
+}
+
+/// the same deep structures through the other operations that recurse over an envelope or decode one
+pub fn deep_other(c: &mut Ctx, b: &Budget, prop: &str) {
+    let cfg = GenCfg::default();
+    for (k, d) in deep_depths(b.thorough).into_iter().enumerate() {
+        c.begin("deep");
+        let dp = gen_deep(c, d, k % 2 == 0);
+        let orig = match c.env(&dp.top) { Some(e) => e, None => { c.end(); continue; } };
+        let bottom = c.env(&dp.bottom).unwrap();
+        match prop {
+            "C05" => crate::props::roundtrip(c, &dp.top),
+            "C13" => {
+                let z = c.assign(&format!("compress {}", dp.top));
+                let u = c.assign(&format!("uncompress {}", z));
+                c.obs(&format!("eq {} {}", dp.top, u));
+                let (okv, shown) = (c.env(&u).map(|x| x.is_identical_to(&orig)).unwrap_or(false), c.val(&u).show());
+                c.check("roundtrip-identical", okv, "roundtrip-identical", || format!("depth {}: uncompress(compress e) is not e: {}", d, &shown[..shown.len().min(120)]));
+                // ... and with the bottom element compressed in place
+                let zi = c.assign(&format!("elide_set {} rem compress {}", dp.top, dp.bottom));
+                if let Some(x) = c.env(&zi) { c.obs(&format!("digest {}", zi)); c.check("digest-preserved", x.digest() == orig.digest() && !x.is_identical_to(&orig), "digest-preserved", || format!("depth {}", d)); }
+            }
+            "C08" => {
+                let n = hex::encode(c.rng.bytes(12));
+                let we = c.assign(&format!("encrypt {} {} {}", dp.top, KEY1, n));
+                let wd = c.assign(&format!("decrypt {} {}", we, KEY1));
+                c.obs(&format!("eq {} {}", dp.top, wd));
+                let (okv, shown) = (c.env(&wd).map(|x| x.is_identical_to(&orig)).unwrap_or(false), c.val(&wd).show());
+                c.check("whole-roundtrip", okv, "whole-roundtrip", || format!("depth {}: decrypt(encrypt e) is not e: {}", d, &shown[..shown.len().min(120)]));
+            }
+            "C12" => {
+                let alld: HashSet<Digest> = elements(&orig).iter().map(|(_, x)| x.digest().into_owned()).collect();
+                c12_one(c, &cfg, &dp.top, &orig, &alld, &dp.bottom, &["deep".to_string()]);
+            }
+            "C15" => {
+                c.obs(&format!("count {}", dp.top));
+                c.obs(&format!("walk {} tree", dp.top));
+                let n = elements(&orig).len();
+                c.check("elements-count", orig.elements_count() == n, "elements-count", || format!("depth {}: {} vs {}", d, orig.elements_count(), n));
+                let deep = orig.deep_digests();
+                let all: HashSet<Digest> = elements(&orig).iter().flat_map(|(_, x)| vec![x.digest().into_owned(), x.subject().digest().into_owned()]).collect();
+                c.check("deep-digests", deep == all && deep.contains(&bottom.digest()), "deep-digests", || format!("depth {}: {} vs {}", d, deep.len(), all.len()));
+                for limit in [d, d + 1, d + 2, d + 3, d + 4, 2 * d + 8] { c.obs(&format!("digests {} {}", dp.top, limit)); }
+                c.check("digests-level", orig.digests(usize::MAX) == deep, "digests-level", || format!("depth {}", d));
+                let visits = walk_visits(&orig, false);
+                c.check("walk-structure", visits.len() == n && visits.iter().any(|(x, _, _)| x.digest() == bottom.digest()), "walk-structure", || format!("depth {}: {} visits for {} elements", d, visits.len(), n));
+            }
+            _ => {}
+        }
+        c.end();
+    }
+}
+
 pub fn c03(c: &mut Ctx, b: &Budget) {
     let cfg = GenCfg::default();
+    deep_elision(c, b, "C03");
     for i in 0..b.scenarios {
         c.begin("elide");
         // markers at every position kind: subject, predicate, object, wrapped interior, assertion-on-assertion
@@ -201,7 +285,12 @@ pub fn c08(c: &mut Ctx, b: &Budget) {
             1 => { let v = *c.rng.pick(KNOWN_VALUES); c.assign(&format!("kv {}", v)) }
             2 => { let x = gen_env(c, &cfg, 2); c.assign(&format!("wrap {}", x)) }
             3 => gen_assertion(c, &cfg, 1),
-            4 => { let x = gen_env(c, &cfg, 1); c.assign(&format!("compress {}", x)) }
+            4 => { let x = if i % 14 == 4 {
+                       // a subject the caller compressed whose expanded encoding is well above any "small payload" threshold
+                       let text: String = std::iter::repeat("All work and no play makes Jack a dull boy. ").take(12 + i % 40).collect();
+                       let l = c.assign(&format!("leaf {}", hex::encode(CBOR::from(text.as_str()).to_cbor_data())));
+                       let a = gen_assertion(c, &cfg, 0); c.count("branch:large-compressed-subject"); c.assign(&format!("add {} {}", l, a))
+                   } else { gen_env(c, &cfg, 1) }; c.assign(&format!("compress {}", x)) }
             5 => { let x = gen_env(c, &cfg, 1); c.assign(&format!("elide {}", x)) }
             _ => gen_env(c, &cfg, 2),
         };
